@@ -199,7 +199,10 @@ def cond_expr(depth, helpers=()):
     fz = st.sampled_from([["bin", "I", "!=", var("F", "f0"), lit("I", 0)], ["bin", "I", "!=", lit("I", 0), var("F", "f0")],
                           ["bin", "I", "==", var("F", "f0"), lit("I", 0)], ["bin", "I", "!=", var("F", "x"), lit("I", 0)],
                           ["bin", "I", "!=", ["bin", "F", "-", var("F", "f0"), var("F", "f0")], lit("I", 0)]])
-    return st.one_of(iexpr(depth, helpers), iexpr(depth, helpers), iexpr(depth, helpers), fz)
+    # an integer local against a float local (the fused loop-test opcodes compare locals directly)
+    lf = st.sampled_from([["bin", "I", "<", var("I", "i1"), var("F", "f0")], ["bin", "I", "<", var("F", "f0"), var("I", "i1")],
+                          ["bin", "I", "<", var("I", "a"), var("F", "x")], ["bin", "I", "<", var("I", "i1"), var("F", "x")]])
+    return st.one_of(iexpr(depth, helpers), iexpr(depth, helpers), iexpr(depth, helpers), fz, lf)
 
 
 @st.composite
@@ -273,8 +276,14 @@ def stmt(draw, depth, ctx):
             return ["for", v, lit("I", base + d0), lit("I", base + d1), draw(block(depth - 1, sub))]
         lo = draw(st.one_of(st.integers(-2, 3).map(lambda x: lit("I", x)), st.just(["bin", "I", "&", var("I", "a"), lit("I", 3)])))
         hi = draw(st.one_of(st.integers(0, 9).map(lambda x: lit("I", x)), st.just(["bin", "I", "&", var("I", "b"), lit("I", 7)]),
-                            st.just(["sizeof", "I", var("A", "a0")])))
-        return ["for", v, lo, hi, draw(block(depth - 1, sub))]
+                            st.just(["sizeof", "I", var("A", "a0")]), st.just(var("F", "f0")), st.just(var("F", "x")), st.just(var("I", "i1"))))
+        body = draw(block(depth - 1, sub))
+        if hi[0] == "var" and hi[1] == "F":
+            # a float local as the bound (compared with the integer loop variable by the fused loop test): only when it is small
+            return ["if", ["bin", "I", "<", hi, lit("F", 20.0)], [["for", v, lo, hi, body]], []]
+        if hi[0] == "var":
+            return ["if", ["bin", "I", "<", hi, lit("I", 20)], [["for", v, lo, hi, body]], []]
+        return ["for", v, lo, hi, body]
     if k == 7 and ctx["guards"]:
         g = ctx["guards"][0]
         sub = dict(ctx, in_loop=True, guards=ctx["guards"][1:])
